@@ -7,6 +7,12 @@
     must be tested against -1 first
  R3 index before bound: a loop whose condition indexes a buffer with a counter must test the counter
     against the length before the first indexing (a zero length must not index)
+ R4 negative slice bound: a slice `X[:args.N - k]` (k > 0) built from a guest-supplied length is reached only
+    where args.N >= k is known; otherwise N = 0 turns the bound into -k, which Python counts from the end
+    (a zero-sized destination receives almost the whole string)
+ R5 bounded terminated copy: when the string handed to a NUL-terminating writer (set_win_str_a/w, set_c_str,
+    a set_str parameter) is bounded through a guest length L on some path (truncating slice, len() guard),
+    then on every path len + 1 <= L (linear reasoning over the guards)
 """
 import ast
 
@@ -15,8 +21,10 @@ from sa.cfg import CFG, node_exprs
 from sa.facts import guard_facts
 
 FILES = ["miasm/os_dep/win_api_x86_32.py", "miasm/os_dep/linux_stdlib.py", "miasm/os_dep/common.py", "miasm/os_dep/win_api_x86_32_seh.py"]
-LEVEL_TEXT = ("Three repository-specific lints over the emulated OS helpers (sign linearity of high/low halves, search "
-              "sentinel tested before arithmetic use, bound tested before first indexing), exact on the pinned tree. They "
+LEVEL_TEXT = ("Five repository-specific lints over the emulated OS helpers (sign linearity of high/low halves, search "
+              "sentinel tested before arithmetic use, bound tested before first indexing, guest length minus constant never used as a "
+              "slice bound without a lower-bound guard, NUL-terminated copies bounded by a guest length proved to fit by linear "
+              "reasoning over the guards on every path), exact on the pinned tree. They "
               "decide these necessary conditions; the documented results in general are not decided.")
 ASSUMPTIONS = ["CPython ast", "arguments named X_low / X_high are the halves of one 64-bit value (naming convention of func_args_stdcall lists)"]
 
@@ -34,7 +42,176 @@ def _flatten_sum(e, sign, out):
         out.append((sign, e))
 
 
+TERM_WRITERS = ("set_win_str_a", "set_win_str_w", "set_c_str", "set_str")
+
+
+def _lin_str(lf):
+    terms, c = lf
+    t = " + ".join("%s%s" % ("" if k == 1 else "%d*" % k, n) for n, k in sorted(terms))
+    return (t + (" %+d" % c if c else "")) if t else str(c)
+
+
+def _guest_terms(lf):
+    return [(n, k) for n, k in lf[0] if n.startswith("args.")]
+
+
+def _nonneg_guard(facts, name, k):
+    """Is `name >= k` among the must-facts (k >= 1)?"""
+    for f in facts:
+        if f[0] == "true" and f[1] == name and k == 1:
+            return True
+        if f[0] == "cmp":
+            a, op, b = f[1], f[2], f[3]
+            try:
+                if a == name and ((op == ">=" and int(b) >= k) or (op == ">" and int(b) >= k - 1) or (op == "!=" and int(b) == 0 and k == 1)):
+                    return True
+            except ValueError:
+                pass
+            try:
+                if b == name and ((op == "<=" and int(a) >= k) or (op == "<" and int(a) >= k - 1) or (op == "!=" and int(a) == 0 and k == 1)):
+                    return True
+            except ValueError:
+                pass
+    return False
+
+
+def _upper_bounds(e):
+    """Linear forms b such that the slice bound `e` is <= max(b...): max(A, c) contributes both A and c."""
+    from sa.astutil import linear
+    if isinstance(e, ast.Call) and dotted(e.func) == "max" and e.args and not e.keywords:
+        out = []
+        for a in e.args:
+            out.extend(_upper_bounds(a))
+        return out
+    return [linear(e)]
+
+
+def _bounded_copy_rules(ck, m, q, fn):
+    from sa.astutil import linear, less_than
+    cfg = None
+    facts = None
+    res = Resolver(fn)
+    # ---------------------------------------------------------------- R4
+    for sl in [n for n in walk_body(fn) if isinstance(n, ast.Subscript) and isinstance(n.slice, ast.Slice) and n.slice.upper is not None
+               and n.slice.lower is None and n.slice.step is None]:
+        lf = linear(sl.slice.upper)
+        if lf[1] >= 0 or len(lf[0]) != 1:
+            continue
+        (name, coef), = tuple(lf[0])
+        if coef != 1:
+            continue
+        k = -lf[1]
+        guest = name.startswith("args.")
+        ok_alias = False
+        if not guest and name.isidentifier():
+            d = res.unique_def(name)
+            # size = args.size if args.size else 1
+            if isinstance(d, ast.IfExp) and norm(d.test) == norm(d.body) and norm(d.body).startswith("args.") \
+                    and isinstance(d.orelse, ast.Constant) and isinstance(d.orelse.value, int):
+                guest = True
+                ok_alias = d.orelse.value >= k and k == 1
+            elif isinstance(d, ast.Call) and dotted(d.func) == "max" and any(isinstance(a, ast.Constant) and isinstance(a.value, int) and a.value >= k for a in d.args) \
+                    and any(norm(a).startswith("args.") for a in d.args):
+                guest = True
+                ok_alias = True
+        if not guest:
+            continue
+        if cfg is None:
+            cfg = CFG(fn)
+            facts = guard_facts(cfg)
+        ok = ok_alias
+        if not ok:
+            nds = cfg.node_containing(sl)
+            ok = bool(nds) and all(_nonneg_guard(facts.get(nd.id, frozenset()), name, k) for nd in nds)
+        ck.ob("R4", "%s:%s" % (q, norm(sl)[:50]), ok, m.where(sl),
+              "`%s` is reached without %s >= %d being known: a zero length makes the bound %d, which Python counts from the end of the "
+              "string, so a zero-sized destination receives all but the last %d character(s)" % (norm(sl)[:60], name, k, -k, k))
+    # ---------------------------------------------------------------- R5
+    writes = [c for c in walk_body(fn) if isinstance(c, ast.Call) and callee_attr(c) in TERM_WRITERS and c.args]
+    for w in writes:
+        val = w.args[-1]
+        if isinstance(val, ast.Subscript) and isinstance(val.slice, ast.Slice) and val.slice.upper is not None and val.slice.lower is None:
+            bounds = set(_upper_bounds(val.slice.upper))
+            var = None
+        elif isinstance(val, ast.Name):
+            var = val.id
+            bounds = None
+        else:
+            continue
+        if var is not None:
+            if cfg is None:
+                cfg = CFG(fn)
+                facts = guard_facts(cfg)
+            UNB = "unbounded"
+
+            def flow(nd, st, var=var):
+                a = nd.ast
+                if nd.kind == "stmt" and isinstance(a, (ast.Assign, ast.AugAssign)):
+                    tgs = a.targets if isinstance(a, ast.Assign) else [a.target]
+                    for t in tgs:
+                        names = [t.id] if isinstance(t, ast.Name) else [e.id for e in getattr(t, "elts", []) if isinstance(e, ast.Name)]
+                        if var in names:
+                            v = a.value
+                            if isinstance(a, ast.Assign) and isinstance(v, ast.Subscript) and isinstance(v.slice, ast.Slice) and v.slice.upper is not None \
+                                    and v.slice.lower is None and v.slice.step is None:
+                                inner = frozenset(_upper_bounds(v.slice.upper))
+                                if norm(v.value) == var and st != UNB and isinstance(st, frozenset):
+                                    return inner | frozenset()   # X = X[:B]: the slice bound is the tighter statement kept
+                                return inner
+                            return UNB
+                return st
+
+            def edge(nd, label, st, var=var):
+                if nd.kind == "test" and label in (True, False):
+                    lt = less_than(nd.ast, label)
+                    if lt is not None:
+                        a, b, strict = lt
+                        if norm(a) == "len(%s)" % var:
+                            terms, c = linear(b)
+                            return frozenset([(terms, c - (1 if strict else 0))])
+                    # `var is None` true / `var` falsy: nothing (or the empty string) is written on this branch
+                    t = nd.ast
+                    if (isinstance(t, ast.Compare) and len(t.ops) == 1 and isinstance(t.ops[0], ast.Is) and norm(t.left) == var
+                            and norm(t.comparators[0]) == "None" and label is True) or (isinstance(t, ast.Name) and t.id == var and label is False):
+                        return frozenset([(frozenset(), 0)])
+                return st
+
+            def join(a, b):
+                if a == UNB or b == UNB:
+                    return UNB if a == b else frozenset(["MIXED"]) | (a if a != UNB else frozenset()) | (b if b != UNB else frozenset())
+                return a | b
+            IN, _o = cfg.forward(UNB, flow, join, edge)
+            nds = cfg.node_containing(w)
+            if not nds:
+                continue
+            st = IN.get(nds[0].id, UNB)
+            if st == UNB:
+                continue          # no bound on any path: an unbounded copy (lstrcpy) is not an instance
+            bounds = set(st)
+        guest_bounds = [b for b in bounds if b != "MIXED" and _guest_terms(b)]
+        if not guest_bounds:
+            continue
+        bad = []
+        for b in sorted(bounds, key=str):
+            if b == "MIXED":
+                bad.append("a path on which the string is not bounded at all")
+                continue
+            gt = _guest_terms(b)
+            if len(b[0]) == 1 and gt and gt[0][1] == 1:
+                if b[1] + 1 > 0:
+                    bad.append("len <= %s, so with the terminator %d character(s) more than %s are written" % (_lin_str(b), b[1] + 1, gt[0][0]))
+            elif not gt:
+                continue          # a constant bound on this path says nothing about the guest length
+            else:
+                bad.append("bound %s is not comparable with the guest length" % _lin_str(b))
+        Lname = _guest_terms(guest_bounds[0])[0][0]
+        ck.ob("R5", "%s:%s(%s)<=%s" % (q, callee_attr(w), norm(val)[:30], Lname), not bad, m.where(w),
+              "the NUL-terminating write `%s` can exceed the length argument: %s" % (norm(w)[:70], "; ".join(bad)))
+
+
 def run(ck):
+    ck.rule("R4", "a slice bound `args.N - k` is reached only where args.N >= k", floor=4)
+    ck.rule("R5", "a NUL-terminated copy bounded by a guest length writes at most that many characters", floor=5)
     ck.rule("R1", "the two halves of a 64-bit argument enter a sum with the same sign; results are returned low then high", floor=6)
     ck.rule("R2", "a find/rfind result is tested against -1 before it is used in arithmetic", floor=3)
     ck.rule("R3", "a counter is compared with the length before it first indexes the buffer", floor=1)
@@ -44,6 +221,7 @@ def run(ck):
             continue
         m = ck.repo.mod(rel)
         for q, fn in sorted(m.funcs.items()):
+            _bounded_copy_rules(ck, m, q, fn)
             # ------------------------------------------------------------ R1
             for n in walk_body(fn):
                 if isinstance(n, ast.BinOp) and isinstance(n.op, (ast.Add, ast.Sub)):
